@@ -56,6 +56,7 @@ class Obl:
     defs: List[str] = field(default_factory=list)
     ccflags: List[str] = field(default_factory=list)
     extra_srcs: List[str] = field(default_factory=list)  # more TUs (absolute or repo-relative 'src/x.c')
+    native_srcs: List[str] = field(default_factory=list)  # TUs linked into the native replay build only
     unwind: Optional[int] = None
     unwindset: List[str] = field(default_factory=list)
     checks: str = 'full'             # 'full' | 'basic' | 'none'
@@ -152,7 +153,7 @@ DEFAULT_IGNORE = [r'arithmetic overflow on (un)?signed to (un)?signed type conve
 
 
 def cbmc_cmd(o, gb):
-    cmd = ['cbmc', gb, '--function', 'vf_harness', '--json-ui', '--unwinding-assertions',
+    cmd = ['cbmc', gb, '--function', 'vf_harness', '--json-ui', '--verbosity', '8', '--unwinding-assertions',
            '--drop-unused-functions']
     if o.slice:
         cmd.append('--slice-formula')
@@ -197,6 +198,9 @@ def parse_cbmc(out):
             mm = re.search(r'Generated (\d+) VCC\(s\), (\d+) remaining', t)
             if mm:
                 stats['vccs'], stats['vccs_remaining'] = int(mm.group(1)), int(mm.group(2))
+            mm = re.search(r'size of program expression: (\d+) steps', t)
+            if mm:
+                stats['steps'] = int(mm.group(1))
             mm = re.search(r'(\d+) variables, (\d+) clauses', t)
             if mm:
                 stats['variables'] = max(stats['variables'], int(mm.group(1)))
@@ -250,7 +254,7 @@ def write_replay(path, prop_id, o, failed, inputs):
 def native_replay(o, workdir, replay_file, tag='n'):
     """build the harness natively (gcc, ASan+UBSan) against the real sources and run it on the inputs"""
     exe = os.path.join(workdir, 'native_%s_%s' % (re.sub(r'\W', '_', o.name), tag))
-    srcs = [src_path(o.src)] + [src_path(s) for s in o.extra_srcs]
+    srcs = [src_path(o.src)] + [src_path(s) for s in list(o.extra_srcs) + list(o.native_srcs)]
     cmd = ['gcc', '-DVF_NATIVE', '-g', '-O0', '-fsanitize=address,undefined', '-fno-sanitize-recover=undefined',
            '-ffunction-sections', '-fdata-sections', '-Wl,--gc-sections',   # unreached library code may reference units that are not linked
            '-w', '-o', exe] + cc_flags(o, workdir, native=True) + srcs + ['-lm']
@@ -309,7 +313,8 @@ def run_obl(prop_id, o, workdir, extra_defs):
         return res
     props, stats, errors = parse_cbmc(open(outf, 'rb').read().decode(errors='replace'))
     res.update(nprops=len(props), solver_s=round(stats['solver_s'], 3), vccs=stats['vccs'],
-               vccs_remaining=stats['vccs_remaining'], variables=stats['variables'], clauses=stats['clauses'])
+               vccs_remaining=stats['vccs_remaining'], variables=stats['variables'], clauses=stats['clauses'],
+               steps=stats.get('steps', 0))
     if not props:
         detail = '; '.join(errors)[-800:] or err.decode(errors='replace')[-800:]
         st = 'inconclusive' if rc in (-9, 137, -6, 134, 6) or 'memory' in detail.lower() or 'bad_alloc' in detail else 'broken'
@@ -449,7 +454,7 @@ def write_evidence(prop_id, tier, seed, level, results, obls, explanation, trust
     samples = []
     for r in results:
         s = {k: r.get(k) for k in ('name', 'desc', 'status', 'bounds', 'nprops', 'vccs', 'vccs_remaining',
-                                   'variables', 'clauses', 'solver_s', 'cbmc_s', 'wall_s', 'witness_ok',
+                                   'variables', 'clauses', 'steps', 'solver_s', 'cbmc_s', 'wall_s', 'witness_ok',
                                    'kf_probe', 'failed', 'native', 'detail', 'note', 'extra') if r.get(k) not in (None, [], '')}
         samples.append(s)
     stubs = sorted({s for o in obls for s in o.stubs})
